@@ -8,6 +8,7 @@ import warnings
 import vlib
 from props import c02_ext as X
 from props import c02_r3 as R
+from props import c02_r4 as R4
 
 F = fractions.Fraction
 PID = 'C02'
@@ -587,7 +588,33 @@ def gen_cases(rng, tier, ctx):
     cases.extend(fam)
     for c in fam[::6 if tier == 'quick' else 4]:       # the same, call by call on the instrumented builder
         cases.append(dict(c, kind='trace', twice=False))
-    progs = [c for c in cases if c['kind'] == 'prog']
+    # round 4: coinciding window triples at every merge point; the same object under different contexts / after other calls
+    gc = R4.make_gc(C, rng)
+    n_coin, n_ctx, n_cloop, n_crw, n_cflat = (150, 90, 60, 30, 12) if tier == 'quick' else (4000, 2500, 1500, 800, 300)
+    fam4 = [R4.gen_coincide(rng, g, C, gc, k) for k in range(n_coin)] + [R4.gen_context(rng, g, C) for _ in range(n_ctx)]
+    cases.extend(fam4)
+    for c in fam4[::8 if tier == 'quick' else 4]:
+        cases.append(dict(c, kind='trace', twice=False))
+    for _ in range(n_cloop):
+        cases.append(gc.loop_case(rng.choice([1, 2, 2, 3])))
+    for _ in range(n_crw):
+        c = X.gen_rw(rng, gc)
+        cases.append(dict(c, side='corr'))
+        cases.append(dict(c, side='spec'))
+    for _ in range(n_cflat):
+        c = X.gen_flat(rng, gc)
+        if c['op'][0] == 'flatten':
+            cases.append(dict(c, side='corr'))
+            cases.append(dict(c, side='spec'))
+            cases.append(dict(c, side='model'))
+        else:
+            cases.append(c)
+    enum4 = R4.enum_coincide(C) + R4.enum_context(C) + R4.enum_loop_coincide()
+    if tier != 'thorough':
+        rng.shuffle(enum4)
+        enum4 = enum4[:110]
+    cases.extend(enum4)
+    progs = [c for c in cases if c['kind'] == 'prog' and 'pre' not in c]
     for _ in range(120 if tier == 'quick' else 4000):
         c = dict(rng.choice(progs))
         declared = sorted(free_params(c['pt']) & set(c['env']))
@@ -769,6 +796,7 @@ def run_impl(case):
                         mm[None] = None
                 pnames = sorted(str(x) for x in pt.parameter_names) if 'drop_params' in case else None
                 first = None
+                R4.pre_calls(pt, case, env, mm, singles, _num)     # earlier calls with other arguments (round 4)
                 if case.get('twice'):
                     # create_program twice on the same template object: the SECOND program is the observation
                     try:
@@ -1044,12 +1072,16 @@ def histogram_keys(case, obs):
             keys.append('shared-objects')
         if case.get('twice'):
             keys.append('create_program-twice')
+        if case.get('pre'):
+            keys.append('earlier-calls-with-other-arguments')
         if case['mm'] is None:
             keys.append('mm:default')
         elif any(v is None for v in case['mm'].values()):
             keys.append('mm:drops')
     else:
         keys.append('loopdepth:%d' % _loop_depth(case['loop']))
+    if 'ws' in obs and len({tuple(w) for w in obs['ws']}) < len(obs['ws']):
+        keys.append('coinciding-windows')
     if 'ws' in obs:
         keys.append('windows:%s' % ('0' if not obs['ws'] else '1' if len(obs['ws']) == 1 else '2-5' if len(obs['ws']) <= 5
                                     else '6+'))
